@@ -7,7 +7,6 @@
    decoder outputs). *)
 From Mxj Require Import Spec.Items Proofs.StrLemmas Proofs.XmlStr Proofs.XmlItems.
 
-Definition nskip (t : str) : bool := false.    (* no SetCheckTagToSkipFunc *)
 
 Section RT.
 Variable pf : str -> option flt.
